@@ -2,8 +2,8 @@
 # Runs every seeded change under /verif/seeded against the quick check of the property it targets (plus any
 # further checks given in seeded/<id>/also.txt) and rewrites the table in seeded/RESULTS.md from what was observed.
 cd "$(dirname "$(readlink -f "$0")")/.."
-out=seeded/matrix.tsv; : > $out
-for d in seeded/C*/; do
+out=${OUT:-seeded/matrix.tsv}; : > $out
+for d in ${SEEDS:-seeded/C*/}; do
   s=$(basename $d); p=${s:0:3}
   checks="$p $(cat $d/also.txt 2>/dev/null)"
   for c in $checks; do
